@@ -336,6 +336,10 @@ class Interp:
         self.notes = []
         self.loop_stack = []
         self.frames = []       # per-call exit lists
+        # optional observers (taint / sink rules): called with the live state so that the path condition is visible
+        self.obs_store = None  # fn(target_term, value, st, node)      attribute / subscript stores
+        self.obs_exit = None   # fn(kind, value, st, node)              return / raise
+        self.obs_call = None   # fn(name, base_term|None, args, kwargs, st, node)   every call evaluated
 
     # ---- entry --------------------------------------------------------------------------
     def run_function(self, fn, args, st=None, modname=None):
@@ -404,6 +408,8 @@ class Interp:
         return st
 
     def _exit(self, kind, st, value, node):
+        if self.obs_exit is not None and self.depth == 0:
+            self.obs_exit(kind, value, st, node)
         self.frames[-1].append(Exit(kind, st.pc, value, node, st.heap, st.env))
 
     def exec_stmt(self, s, st):
@@ -736,6 +742,8 @@ class Interp:
                 r = base.set_attr(self, target.attr, v, st)
                 if r is not NotImplemented:
                     return
+            if self.obs_store is not None:
+                self.obs_store(('attr', term(base), target.attr), v, st, target)
             st.heap[('attr', term(base), target.attr)] = v
             return
         if isinstance(target, ast.Subscript):
@@ -1117,6 +1125,11 @@ class Interp:
                     kwargs['**'] = v
             else:
                 kwargs[k.arg] = self.eval(k.value, st)
+        if self.obs_call is not None:
+            if isinstance(f, ast.Name):
+                self.obs_call(f.id, None, args, kwargs, st, node)
+            elif isinstance(f, ast.Attribute):
+                self.obs_call(f.attr, unparse(f.value), args, kwargs, st, node)
         if isinstance(f, ast.Name):
             return self.call_name(f.id, args, kwargs, st, node)
         if isinstance(f, ast.Attribute):
